@@ -86,7 +86,13 @@ func (e *Enc) instr(in ssa.Instruction, st *State) {
 				return
 			}
 		}
-		// boxed non-pointer value: an opaque non-nil interface value
+		// boxed non-pointer value: box.T(v), an uninterpreted non-nil interface value
+		if v.Loc == nil {
+			t := e.boxTerm(typeKey(x.X.Type()), v.T)
+			e.setVal(x, t)
+			e.assume(Term{app(">", e.vals[x].T.S, "0"), sBool})
+			return
+		}
 		t := e.havoc("iface", sInt)
 		e.assume(Term{app(">", t.S, "0"), sBool})
 		e.vals[x] = Val{T: t}
